@@ -91,6 +91,8 @@ def run_tlc(
             cmd += ["-depth", str(depth)]
         if seed is not None:
             cmd += ["-seed", str(seed)]
+        if not coverage and os.environ.get("FJV_COVERAGE") == "1" and simulate is None and not module.startswith("Trace_"):
+            coverage = True          # thorough tier: per-action coverage of every model-checking run (vacuity report)
         if coverage:
             cmd += ["-coverage", "1"]
         cmd.append(module)
